@@ -57,21 +57,35 @@ def snapshot(root):
     return out
 
 
-def materialise(tree, parent, order_rng=None):
-    """tree = {'name', 'dirs': [tree...], 'files': {name: content}}; creation order may be
-    permuted (a file system's enumeration order often follows creation order)."""
+def materialise(tree, parent, order_rng=None, top=None):
+    """tree = {'name', 'dirs': [tree...], 'files': {name: content}, 'links': {name: target}};
+    creation order may be permuted (a file system's enumeration order often follows creation
+    order).  A link is a symbolic link to the directory `target` (relative to `top`)."""
     path = os.path.join(parent, tree['name'])
+    top = top or parent
     os.makedirs(path, exist_ok=True)
-    items = [('f', n) for n in tree['files']] + [('d', i) for i in range(len(tree['dirs']))]
+    items = [('f', n) for n in tree['files']] + [('d', i) for i in range(len(tree['dirs']))] + \
+        [('l', n) for n in sorted(tree.get('links') or {})]
     if order_rng is not None:
         order_rng.shuffle(items)
     for kind, x in items:
         if kind == 'f':
             with open(os.path.join(path, x), 'w') as fh:
                 fh.write(tree['files'][x])
+        elif kind == 'l':
+            os.symlink(os.path.join(top, tree['links'][x]), os.path.join(path, x))
         else:
-            materialise(tree['dirs'][x], path, order_rng)
+            materialise(tree['dirs'][x], path, order_rng, top)
     return path
+
+
+def children(node, nodes):
+    """(name, child node, is_link) for the real sub-directories and the symlinked ones;
+    `nodes` maps relative paths to nodes (link targets are looked up there)."""
+    out = [(d['name'], d, False) for d in node['dirs']]
+    for name, target in sorted((node.get('links') or {}).items()):
+        out.append((name, nodes[target], True))
+    return out
 
 
 def walk_tree(tree, prefix=''):
